@@ -1,6 +1,7 @@
 package props
 
 import (
+	"fmt"
 	"bytes"
 	"context"
 	"encoding/json"
@@ -153,6 +154,23 @@ func (p c07) RunBatch(c *fw.Ctx) {
 	for _, a := range V {
 		for _, use := range []string{"(x => len(x))(m)", "[m] == [m]", "{m: 1}", "m == {1: 1}", "f = x => x; f(m); f(m)", "m < m", "println(m)"} {
 			table = append(table, "m = {1: 1, 2: "+a+"}; del(m[2]); "+use, "m = {"+a+": 1, 1: 2}; del(m["+a+"]); "+use)
+		}
+	}
+	// every kind of value as map KEY of an argument (hashing of call arguments), and deletes from maps of every size 0..6
+	for _, a := range V {
+		table = append(table, "(x => 1)({"+a+": 1})", "f = x => x; f({"+a+": 1}); f([{"+a+": 1}]); f({1: {"+a+": 2}})", "f = (x, y) => 1; f(1, {"+a+": "+a+"})")
+	}
+	for n := 0; n <= 6; n++ {
+		lit := "{"
+		for i := 1; i <= n; i++ {
+			if i > 1 {
+				lit += ", "
+			}
+			lit += fmt.Sprintf("%d: %d", i, i)
+		}
+		lit += "}"
+		for k := 0; k <= n+1; k++ {
+			table = append(table, fmt.Sprintf("m = %s; del(m[%d]); m", lit, k), fmt.Sprintf("m = %s; func fd(mm) {del(mm[%d]); mm}; fd(m)", lit, k), fmt.Sprintf("m = %s; m.k%d = 1; del(m.k%d); del(m[%d]); m", lit, k, k, k))
 		}
 	}
 	// a variable deleted by another call frame while this one holds a reference to it
